@@ -19,6 +19,12 @@ before any use of that guard other than passing it on, `check_guard` has run —
 itself or in every callee the guard is handed to. -/
 theorem all_public_guarded : publicRows.all (checkedB guardFns fuel) = true := by decide
 
+/-- **the check itself rejects in every build profile**: the body of every `check_guard` is an
+unconditional `assert!(Collector::ptr_eq(..))` (not `debug_assert!`, not under `cfg`), or a call of
+another `check_guard`; and there is at least one (the map's). -/
+theorem check_guard_unconditional :
+    checkGuardBodies.all (·.2) = true ∧ checkGuardBodies.any (·.1 == "HashMap") = true := by decide
+
 /-- one level: if every callee that is `Checked` runs without a foreign use, so do the uses -/
 theorem checkedUsesWith_sound (ck : Nat → Bool) (run : Nat → List GEv × Bool)
     (hc : ∀ i, ck i = true → ((run i).1.all (fun e => !isForeign e)) = true) :
